@@ -271,6 +271,9 @@ class Generator(AbstractODSGenerator):
 
         # Now looping through the assets to do the reporting.
         for asset, asset_cost_basis in asset_cost_bases.items():
+            if asset not in asset_crypto_balance_holder:
+                # Nothing of this asset is held any longer: a residual cost basis can only be rounding noise of the sold percentages.
+                continue
             total_crypto_balance = ZERO
             for crypto_balance in asset_crypto_balance_holder[asset].values():
                 total_crypto_balance += crypto_balance
